@@ -13,6 +13,7 @@ import (
 	"sort"
 	"strconv"
 	"strings"
+	"sync"
 	"time"
 
 	"verifharness/c03lib"
@@ -42,33 +43,60 @@ func main() {
 		return
 	}
 	c = vlib.NewCheck("C03", "model_checking")
-	c.Set("rule", "TLC: all interleavings at shared-state steps of N requests x extension lists x caches x suggestions (constants in spec/MC_Pipeline*.cfg). "+
+	c.Set("rule", "TLC: all interleavings at shared-state steps of N requests x extension lists x caches x suggestions (constants in spec/MC_Pipeline*.cfg); every mutator gate has three outcomes (pass, error, PANIC) and a panicking gate is a gate that did not pass (I0-I7). "+
 		"Implementation: (A) every TLC-enumerated order of cache operations of 2 (thorough: sample of 3) concurrent requests is forced on the real executor through a gating query cache; "+
-		"(B) seeded random sessions (extension lists of length 0-3 over all 63 hook subsets x {none,map,lru1-3} x suggestions on/off x direct/HTTP x sequential and concurrent steps over the 8-kind request alphabet) "+
-		"are recorded and validated by TLC against PipelineTrace; a case class = request kind x rejection x cache kind x seq/conc x suggestions x #extensions x mode; "+
+		"(G) gate sweep: every behaviour of MC_PipelineGates.cfg (7 transports x 2 extension lists x 11 request classes x every gate plan: one gate rejects or panics at every gate position, two gates fail with at least one panicking) is replayed against a real handler.Server over the real transport (POST, GET, multipart form, SSE, multipart/mixed, websocket, and the direct driver) and compared with the word TLC prescribes: what ran, what touched the cache, what the client got; a case class = fate x gate plan x document class x transport; "+
+		"(B) seeded random sessions (extension lists of length 0-3 over all 63 hook subsets x {none,map,lru1-3} x suggestions on/off x direct/real transports x sequential and concurrent steps over the 9-kind request alphabet x gate plans with 0-2 rejecting/panicking gates) "+
+		"are recorded and validated by TLC against PipelineTrace; a case class = request kind x gate plan x cache kind x seq/conc x suggestions x #extensions x transport; "+
 		"(C) statistical reproduction of the rule-swap window with lockstep goroutines")
 	c.Assume("TLC and the Json community module are correct")
 	c.Assume("gqlparser's parser, validator.Validate with an explicit rule list and validator.VariableValues classify the documents of the alphabet (independent of the executor and of the global rule set)")
 	c.Assume("the hand-written ExecutableSchema nests RootResolverMiddleware / ResolverMiddleware the way generated code does")
 	c.Assume("word-sized loads and stores of the slice header are atomic (rule model \"words\")")
+	c.Assume("the harness's transport clients (net/http, mime/multipart, gorilla/websocket) report the answers of the server faithfully; an answer is noted by the client some time after the server produced it (PipelineTrace: wire)")
 
 	if f := os.Getenv("VERIF_REPLAY"); f != "" {
 		replay(f)
 		return
 	}
 	selfCheckAlphabet()
-	modelCheck()
+	// the exhaustive model checks (3 TLC workers) run while the conformance
+	// inputs are exported (1 TLC worker) and driven through the real code
+	mcDone := make(chan struct{})
+	go func() { modelCheck(); close(mcDone) }()
 	var sessions []*c03lib.Session
 	sessions = append(sessions, replaySchedules()...)
+	sessions = append(sessions, gateSweep()...)
 	sessions = append(sessions, ruleSweep()...)
 	sessions = append(sessions, randomSessions()...)
+	<-mcDone
 	validate(sessions)
 	selfTest(sessions)
 	window()
 	if thorough {
 		raceRun()
 	}
+	finishChecks()
 	c.Finish()
+}
+
+// infra-level observations that must not pre-empt a violation: a broken tree
+// can make the harness's own expectations (client framing, non-vacuity) fail
+var deferredInfra []string
+
+func finishChecks() {
+	if len(deferredInfra) > 0 && c.Violations() == 0 {
+		vlib.Infra("%s", strings.Join(deferredInfra, "\n"))
+	}
+}
+
+// clientErrs notes requests the transport client could not complete.
+func clientErrs(s *c03lib.Session) bool {
+	if len(s.ClientErrs) == 0 {
+		return false
+	}
+	deferredInfra = append(deferredInfra, fmt.Sprintf("transport client failed in session %s (%s): %s", s.Cfg.ID, s.Cfg.Transport(), strings.Join(s.ClientErrs, "; ")))
+	return true
 }
 
 // ---------------------------------------------------------------------------
@@ -79,7 +107,7 @@ func selfCheckAlphabet() {
 	for _, k := range c03lib.Kinds {
 		for i := 0; i < 60; i++ {
 			q := c03lib.GenRequest(rng, k, exts, true)
-			q.Describe(es.Schema(), false)
+			q.Describe(es.Schema(), "direct")
 			if !q.Consistent() {
 				vlib.Infra("request alphabet: %q (opname %q, vars %v) meant as %s is classified %s/%s/%s", q.Query, q.OpName, q.Vars, k, q.Cls, q.OpSel, q.VarCls)
 			}
@@ -121,7 +149,7 @@ func modelCheck() {
 		fmt.Fprintf(os.Stderr, "[tlc] %s: %d distinct / %d generated states, depth %d, %.1fs: no error\n", cfg, r.Distinct, r.Generated, r.Depth, r.WallS)
 		return r
 	}
-	r := need("mc", "MC_Pipeline.cfg", 4, thorough)
+	r := need("mc", "MC_Pipeline.cfg", 3, thorough)
 	if thorough {
 		// (TLC attributes Start to the enclosing MCNext disjunct in this config)
 		for _, m := range regexp.MustCompile(`(?m)^<MCNext line [^>]*>: (\d+):(\d+)`).FindAllStringSubmatch(r.Output, -1) {
@@ -135,14 +163,14 @@ func modelCheck() {
 		}
 		mc["coverage"] = r.ActionCount
 	}
-	need("steps", "MC_PipelineSteps.cfg", 4, false)
-	need("atomic", "MC_PipelineCur_atomic.cfg", 4, false)
+	need("steps", "MC_PipelineSteps.cfg", 3, false)
+	need("atomic", "MC_PipelineCur_atomic.cfg", 3, false)
 	if thorough {
-		need("mc3", "MC_Pipeline3.cfg", 4, false)
+		need("mc3", "MC_Pipeline3.cfg", 3, false)
 	}
 	for _, inv := range []string{"I1", "I2", "I5"} {
 		cfg := "MC_PipelineCur_words_" + inv + ".cfg"
-		r := tlc("words"+inv, "MC_Pipeline", cfg, 4, false, 10*time.Minute)
+		r := tlc("words"+inv, "MC_Pipeline", cfg, 3, false, 10*time.Minute)
 		if r.OK || !strings.Contains(r.Output, "Invariant "+inv+" is violated") {
 			vlib.Infra("model %s: expected TLC to violate %s on the model of the current per-request rule swap; output:\n%s", cfg, inv, tailStr(r.Output, 2000))
 		}
@@ -175,7 +203,7 @@ type schedJ struct {
 }
 
 func concretise(q, cls, opsel, vcls string, n int) *c03lib.Request {
-	r := &c03lib.Request{Rej: c03lib.Rej{K: "none"}, Vars: map[string]any{}}
+	r := &c03lib.Request{Gates: []c03lib.Gate{}, Vars: map[string]any{}}
 	switch q {
 	case "QI":
 		// rotate through the per-rule invalid documents
@@ -407,6 +435,9 @@ func randomSessions() []*c03lib.Session {
 			reportPanics(s)
 			continue
 		}
+		if clientErrs(s) {
+			continue
+		}
 		out = append(out, s)
 	}
 	return out
@@ -542,6 +573,9 @@ func ruleSweep() []*c03lib.Session {
 			reportPanics(s)
 			continue
 		}
+		if clientErrs(s) {
+			continue
+		}
 		out = append(out, s)
 	}
 	for _, r := range c03lib.RuleNames() {
@@ -657,10 +691,25 @@ func validate(sessions []*c03lib.Session) {
 	for _, s := range ok {
 		nlines += len(s.Lines)
 	}
+	// batches are validated side by side (one TLC worker each, at most four at a time)
+	const batch = 600
+	nb := (len(ok) + batch - 1) / batch
+	parts := make([][]rejection, nb)
+	var wg sync.WaitGroup
+	sem := make(chan struct{}, 4)
+	for b := 0; b < nb; b++ {
+		wg.Add(1)
+		go func(b int) {
+			defer wg.Done()
+			sem <- struct{}{}
+			defer func() { <-sem }()
+			parts[b] = tlcTraces(fmt.Sprintf("strict%d", b), "PipelineTrace.cfg", ok[b*batch:min(len(ok), (b+1)*batch)], true)
+		}(b)
+	}
+	wg.Wait()
 	var rejs []rejection
-	const batch = 1000
-	for i := 0; i < len(ok); i += batch {
-		rejs = append(rejs, tlcTraces(fmt.Sprintf("strict%d", i/batch), "PipelineTrace.cfg", ok[i:min(len(ok), i+batch)], true)...)
+	for _, p := range parts {
+		rejs = append(rejs, p...)
 	}
 	fmt.Fprintf(os.Stderr, "[trace] %d sessions, %d trace lines validated against PipelineTrace (repaired rule model) in %.1fs: %d rejected\n", len(ok), nlines, time.Since(t0).Seconds(), len(rejs))
 	c.Set("trace_lines", nlines)
@@ -668,7 +717,7 @@ func validate(sessions []*c03lib.Session) {
 		classifyRejection(r)
 	}
 	for _, s := range ok {
-		if len(s.Steps) > 2 && len(s.Cfg.Exts) > 1 && !s.Cfg.HTTP {
+		if len(s.Steps) > 2 && len(s.Cfg.Exts) > 1 && !s.Cfg.Remote() {
 			c.Sample(map[string]any{"session": s.Cfg, "trace_head": headLines(s.Lines, 14)})
 			break
 		}
@@ -810,6 +859,84 @@ func selfTest(sessions []*c03lib.Session) {
 			cp["d"] = "mixed"
 			evs[i] = cp
 			return evs
+		}},
+		// --- a gate that panicked (round 3): the recover line of a request marks it
+		{"exec-after-a-panicking-gate", func(evs []map[string]any) []map[string]any {
+			i := find(evs, func(a map[string]any) bool { return a["k"] == "recover" })
+			if i < 0 {
+				return nil
+			}
+			out := append([]map[string]any{}, evs[:i]...)
+			out = append(out, map[string]any{"e": "H", "r": evs[i]["r"], "k": "exec", "d": "call", "i": 0, "f": ""})
+			return append(out, evs[i:]...)
+		}},
+		{"operation-interceptor-instead-of-recover-after-a-panicking-gate", func(evs []map[string]any) []map[string]any {
+			// what a swallowed panic looks like: the pipeline goes on
+			i := find(evs, func(a map[string]any) bool { return a["k"] == "recover" })
+			if i < 0 {
+				return nil
+			}
+			cp := map[string]any{"e": "H", "r": evs[i]["r"], "k": "oi", "d": "in", "i": 1, "f": ""}
+			out := append([]map[string]any{}, evs[:i]...)
+			out = append(out, cp)
+			return append(out, evs[i+1:]...)
+		}},
+		{"cache-lookup-after-a-panicking-parameter-gate", func(evs []map[string]any) []map[string]any {
+			for i, e := range evs {
+				if e["e"] != "H" || e["k"] != "recover" {
+					continue
+				}
+				// the last event of that request before the recover line is a pm call
+				for j := i - 1; j >= 0; j-- {
+					if evs[j]["e"] == "H" && evs[j]["r"] == e["r"] {
+						if evs[j]["k"] != "pm" {
+							break
+						}
+						out := append([]map[string]any{}, evs[:i]...)
+						out = append(out, map[string]any{"e": "H", "r": e["r"], "k": "cget", "d": "miss", "i": 0, "f": "Q1"})
+						return append(out, evs[i:]...)
+					}
+				}
+			}
+			return nil
+		}},
+		{"data-answer-for-a-request-whose-gate-panicked", func(evs []map[string]any) []map[string]any {
+			for i, e := range evs {
+				if e["e"] != "H" || e["k"] != "recover" {
+					continue
+				}
+				for j := range evs {
+					if evs[j]["e"] == "H" && evs[j]["r"] == e["r"] && evs[j]["k"] == "resp" && j > i-3 {
+						cp := map[string]any{}
+						for k, v := range evs[j] {
+							cp[k] = v
+						}
+						cp["d"] = "data"
+						evs[j] = cp
+						return evs
+					}
+				}
+			}
+			return nil
+		}},
+		{"success-status-for-a-request-whose-gate-panicked", func(evs []map[string]any) []map[string]any {
+			for i, e := range evs {
+				if e["e"] != "H" || e["k"] != "recover" {
+					continue
+				}
+				for j := i; j < len(evs); j++ {
+					if evs[j]["e"] == "H" && evs[j]["r"] == e["r"] && evs[j]["k"] == "resp" && evs[j]["f"] == "4xx" {
+						cp := map[string]any{}
+						for k, v := range evs[j] {
+							cp[k] = v
+						}
+						cp["f"] = "2xx"
+						evs[j] = cp
+						return evs
+					}
+				}
+			}
+			return nil
 		}},
 	}
 	done := map[string]bool{}
